@@ -1369,7 +1369,8 @@ Lemma udp_io_ok fx beh rbeh s m rin rout : Inv s m -> okr m (udp_io fx beh rbeh 
 Proof.
   intros HI. unfold udp_io.
   assert (H1 : okr m (if rin then udp_recvmsg fx rbeh s else (s, []))).
-  { destruct rin; [now apply recvmsg_loop_ok|now apply okr_nil]. }
+  { destruct rin; [|now apply okr_nil]. unfold udp_recvmsg.
+    destruct (recving s); [now apply recvmsg_loop_ok|now apply okr_nil]. }
   destruct (if rin then udp_recvmsg fx rbeh s else (s, [])) as [s1 e1].
   destruct (rout && negb (closing s1)); [|exact H1].
   destruct (udp_sendmsg fx s1) as [s2 e2] eqn:E2.
@@ -1832,7 +1833,8 @@ Theorem accepted_getters tr m :
 Proof.
   intros H pre post sz ct act E. subst tr. rewrite mon_run_app in H.
   destruct (mon_run mon0 pre) as [m1|] eqn:E1; [|discriminate].
-  pose proof (mon_run_owed _ _ _ E1) as Ho. simpl in Ho, H. rewrite <- Ho.
+  pose proof (mon_run_owed _ _ _ E1) as Ho.
+  change (owed_after [] pre) with (owed_after (m_owed mon0) pre). rewrite <- Ho. simpl in H.
   destruct ((ct =? Z.of_nat (length (m_owed m1))) && (sz =? owed_bytes (m_owed m1))) eqn:Eg;
     [|discriminate].
   apply andb_prop in Eg. destruct Eg as (G1 & G2).
